@@ -428,3 +428,42 @@ PROPS["C12"].aggregate = _history_aggregate
 PROPS["C12"].oracle_tokens = PROPS["C12"].oracle_tokens + ["ORACLE_STEP_HISTORY_DEPENDS_ON_CONFIGURATION"]
 PROPS["C12"].rule += ("; step histories (steps, accepted) of the configurations of one problem are counted over the run: "
                       ">= 8 differing pairs and > 1% of the pairs of a family is a violation")
+
+
+# C08: when a table theorem no longer checks, which clause of which table fails and by how much (coq/RosDiag.v,
+# evaluated on the tables regenerated from the headers on this run): the failing configuration is the replay.
+_C08_TABLES = [("two_stage", 2, "tol40"), ("three_stage", 3, "tol40"), ("four_stage", 4, "(1 # 50000)"),
+               ("four_stage_da", 3, "tol40"), ("six_stage_da", 4, "tol40")]
+_C08_CODES = {0: "order condition 1 (sum b_i = 1)", 1: "order condition 2", 2: "order condition 3a", 3: "order condition 3b",
+              4: "order condition 4a", 5: "order condition 4b", 6: "order condition 4c", 7: "order condition 4d"}
+
+
+def _c08_diagnose():
+    import re, subprocess
+    os.makedirs(V.CACHE, exist_ok=True)
+    f = os.path.join(V.CACHE, "C08DiagRun.v")
+    with open(f, "w") as fh:
+        fh.write("From Coq Require Import QArith List.\nFrom Model Require Import RosOrder RosParams RosDiag.\n")
+        for name, p, tol in _C08_TABLES:
+            fh.write("Eval vm_compute in (diagnose %s %d %s).\n" % (name, p, tol))
+    rc, so, se = V.sh("timeout 300 coqc -Q %s Model %s" % (V.COQ, f), cwd=V.CACHE, timeout=330)
+    if rc != 0:
+        return []
+    blocks = re.split(r"\n\s*=\s", "\n" + so)[1:]
+    out = []
+    for (name, p, tol), blk in zip(_C08_TABLES, blocks):
+        for code, num, den in re.findall(r"\((\d+)%nat,\s*(-?\d+)(?:\s*#\s*(\d+))?\)", blk.replace("\n", " ")):
+            code = int(code)
+            val = float(int(num)) / float(int(den or 1))
+            grp, idx = divmod(code, 100)
+            what = {1: "main weights: " + _C08_CODES.get(idx, "also satisfies order %d (documented order too low)" % (p + 1)),
+                    2: "embedded weights: " + _C08_CODES.get(idx, "also satisfy order %d" % p),
+                    3: "alpha_[%d] differs from its row sum" % idx, 4: "gamma_[%d] differs from its row sum" % idx,
+                    5: "|R(inf)| above the bound", 6: "packed a_/c_ index leaves the 15-slot arrays",
+                    7: "estimator_of_local_order_ is not the documented order"}.get(grp, "clause %d" % code)
+            out.append("table %s: %s, residual %.6g (exact %s/%s; allowed %s)" % (name, what, val, num, den or "1", tol))
+    return out
+
+
+import vcore as V  # noqa: E402
+PROPS["C08"].diagnose = _c08_diagnose
